@@ -418,10 +418,13 @@ class MinMaxAggregator:
         lits_without_vars = []
         rest_vars: set[AST] = set()  # variable names that are used in- but also outside of the aggregate
         inside_variables = set(chain(*map(lambda x: collect_ast(x, "Variable"), agg.atom.elements)))
+        # only variables that are global in the statement are shared with other literals:
+        # two aggregates may both call a local variable I
+        global_variables = global_vars_inside_body(list(rule.body))
         for blit in rule.body:
             if blit == agg:
                 continue
-            blit_vars = set(x for x in collect_ast(blit, "Variable") if x.name != "_")
+            blit_vars = set(x for x in collect_ast(blit, "Variable") if x.name != "_" and x in global_variables)
             if len(blit_vars.intersection(inside_variables)) != 0:
                 rest_vars.update(blit_vars)
                 lits_with_vars.append(blit)
